@@ -7,9 +7,11 @@ pub mod c02;
 pub mod c03;
 pub mod c04;
 pub mod c05;
+pub mod c06;
+pub mod c07;
 pub mod c08;
 
-pub const IDS: &[&str] = &["C01", "C02", "C03", "C04", "C05", "C08"];
+pub const IDS: &[&str] = &["C01", "C02", "C03", "C04", "C05", "C06", "C07", "C08"];
 
 macro_rules! dispatch {
     ($id:expr, $f:ident, $($arg:expr),*) => {
@@ -19,6 +21,8 @@ macro_rules! dispatch {
             "C03" => $f(&c03::C03, $($arg),*),
             "C04" => $f(&c04::C04, $($arg),*),
             "C05" => $f(&c05::C05, $($arg),*),
+            "C06" => $f(&c06::C06, $($arg),*),
+            "C07" => $f(&c07::C07, $($arg),*),
             "C08" => $f(&c08::C08, $($arg),*),
             other => {
                 eprintln!("unknown property {other}");
